@@ -19,7 +19,7 @@ type c03 struct{}
 func (c03) ID() string    { return "C03" }
 func (c03) Level() string { return "exploration" }
 func (c03) Rule() string {
-	return "grammar products, each complete within its domain: ports [IP:][HOST[-HOST]:]CONTAINER[-CONTAINER][/PROTO] (4 IPs x 5 host forms x 3 container forms x 4 protocols + bare integers); volumes [SOURCE:]TARGET[:MODE,...] (9 sources x 3 targets x mode sets of <=2 from 8); devices SRC[:DST[:PERM]]; secrets/configs by name; build string; env_file / label_file string, list, long; depends_on and networks lists; extends string; healthcheck test string; external {name}; KEY[=VALUE] lists vs mappings (6 value kinds) at 8 positions; string-or-list at 6 positions; command/entrypoint strings over quoted words (<=3 words); durations and byte sizes against numeric literals; each short form loaded next to the reference long form written from the specification grammar and compared on the whole project; near misses must be errors. distinct = distinct short-form strings"
+	return "grammar products, each complete within its domain: ports [IP:][HOST[-HOST]:]CONTAINER[-CONTAINER][/PROTO] (4 IPs x 5 host forms x 3 container forms x 4 protocols + bare integers; ranges starting at 15 (container, host) bases incl. every decimal-width boundary 9|10 .. 9999|10000); volumes [SOURCE:]TARGET[:MODE,...] (9 sources x 3 targets x mode sets of <=2 from 8); devices SRC[:DST[:PERM]]; secrets/configs by name; build string; env_file / label_file string, list, long; depends_on and networks lists; extends string; healthcheck test string; external {name}; KEY[=VALUE] lists vs mappings (6 value kinds) at 8 positions; string-or-list at 6 positions; command/entrypoint strings over quoted words (<=3 words); durations and byte sizes against numeric literals; each short form loaded next to the reference long form written from the specification grammar and compared on the whole project; near misses must be errors. distinct = distinct short-form strings"
 }
 func (c03) Assumptions() []string {
 	return []string{
@@ -133,59 +133,72 @@ func c03ports() []c03case {
 	hosts := []string{"none", "single", "range2", "range3", "empty"}
 	conts := []string{"single", "range2", "range3"}
 	protos := []string{"", "tcp", "udp", "sctp"}
-	for _, ip := range ips {
-		for _, h := range hosts {
-			for _, ct := range conts {
-				for _, pr := range protos {
-					if ip != "" && h == "none" {
-						// IP given: a host part (possibly empty) is mandatory by the grammar
-						continue
-					}
-					cn := map[string]int{"single": 1, "range2": 2, "range3": 3}[ct]
-					hn := map[string]int{"none": 0, "empty": 0, "single": 1, "range2": 2, "range3": 3}[h]
-					cpart := "3000"
-					if cn > 1 {
-						cpart = fmt.Sprintf("3000-%d", 3000+cn-1)
-					}
-					hpart := ""
-					switch {
-					case hn == 1:
-						hpart = "8000"
-					case hn > 1:
-						hpart = fmt.Sprintf("8000-%d", 8000+hn-1)
-					}
-					spec := cpart
-					if h != "none" {
-						spec = hpart + ":" + cpart
-					}
-					if ip != "" {
-						spec = ip + ":" + spec
-					}
-					if pr != "" {
-						spec += "/" + pr
-					}
-					id := "ports/" + spec
-					kind := "eq"
-					if hn > 0 && hn != cn {
-						kind = "total" // host range against a different number of container ports: not defined by the statement
-					}
-					proto := pr
-					if proto == "" {
-						proto = "tcp"
-					}
-					var sb strings.Builder
-					sb.WriteString("    ports:\n")
-					for i := 0; i < cn; i++ {
-						fmt.Fprintf(&sb, "      - {mode: ingress, target: %d, protocol: %s", 3000+i, proto)
-						if hn > 0 {
-							fmt.Fprintf(&sb, ", published: \"%d\"", 8000+i)
+	// first port of the container / host range: ranges that stay within one decimal width and ranges that cross one
+	type bases struct{ c, h int }
+	var bs []bases
+	for _, cb := range []int{3000, 9, 99, 999, 9999} {
+		for _, hb := range []int{8000, 98, 9999} {
+			bs = append(bs, bases{cb, hb})
+		}
+	}
+	for _, b := range bs {
+		for _, ip := range ips {
+			for _, h := range hosts {
+				for _, ct := range conts {
+					for _, pr := range protos {
+						if ip != "" && h == "none" {
+							// IP given: a host part (possibly empty) is mandatory by the grammar
+							continue
+						}
+						if (b.c != 3000 || b.h != 8000) && (ip == "0.0.0.0" || ip == "[::1]" || pr == "tcp" || pr == "sctp") {
+							continue // the other bases: one IP form and two protocol forms
+						}
+						cn := map[string]int{"single": 1, "range2": 2, "range3": 3}[ct]
+						hn := map[string]int{"none": 0, "empty": 0, "single": 1, "range2": 2, "range3": 3}[h]
+						cpart := fmt.Sprint(b.c)
+						if cn > 1 {
+							cpart = fmt.Sprintf("%d-%d", b.c, b.c+cn-1)
+						}
+						hpart := ""
+						switch {
+						case hn == 1:
+							hpart = fmt.Sprint(b.h)
+						case hn > 1:
+							hpart = fmt.Sprintf("%d-%d", b.h, b.h+hn-1)
+						}
+						spec := cpart
+						if h != "none" {
+							spec = hpart + ":" + cpart
 						}
 						if ip != "" {
-							fmt.Fprintf(&sb, ", host_ip: \"%s\"", strings.Trim(ip, "[]"))
+							spec = ip + ":" + spec
 						}
-						sb.WriteString("}\n")
+						if pr != "" {
+							spec += "/" + pr
+						}
+						id := "ports/" + spec
+						kind := "eq"
+						if hn > 0 && hn != cn {
+							kind = "total" // host range against a different number of container ports: not defined by the statement
+						}
+						proto := pr
+						if proto == "" {
+							proto = "tcp"
+						}
+						var sb strings.Builder
+						sb.WriteString("    ports:\n")
+						for i := 0; i < cn; i++ {
+							fmt.Fprintf(&sb, "      - {mode: ingress, target: %d, protocol: %s", b.c+i, proto)
+							if hn > 0 {
+								fmt.Fprintf(&sb, ", published: \"%d\"", b.h+i)
+							}
+							if ip != "" {
+								fmt.Fprintf(&sb, ", host_ip: \"%s\"", strings.Trim(ip, "[]"))
+							}
+							sb.WriteString("}\n")
+						}
+						out = append(out, c03case{id: id, short: "    ports: [\"" + spec + "\"]\n", long: sb.String(), kind: kind})
 					}
-					out = append(out, c03case{id: id, short: "    ports: [\"" + spec + "\"]\n", long: sb.String(), kind: kind})
 				}
 			}
 		}
